@@ -147,6 +147,16 @@ impl TokenParser {
     fn stop_reason(&self) -> StopReason {
         self.stop_reason
     }
+    // the rest of TokenParser's public query surface (a rewritten caller may use any of it)
+    fn stopped(&self) -> bool {
+        self.stop_reason != StopReason::NotStopped
+    }
+    fn is_fresh(&self) -> bool {
+        !self.started
+    }
+    fn error_message(&self) -> Option<String> {
+        None
+    }
     fn temperature(&self) -> Option<f32> {
         None
     }
